@@ -93,7 +93,7 @@ func genLiteral(r *h.Rand) string {
 	case 7:
 		return `"a\"b\n"`
 	case 8:
-		return "`raw`"
+		return r.Pick([]string{"`raw`", "`raw`", "`r\nw`", "`\n\n`"})
 	case 9:
 		return "'c'"
 	case 10:
